@@ -498,6 +498,47 @@ def finish_reachable_rule(chk, prog):
     return n
 
 
+def truncated_rule(chk, prog):
+    """K1-truncated: when the wrapped (compressed) stream is at its end, the decompressing stream reports a regular end of
+    file only if the codec has finished its member: there is an error return that depends on both 'wrapped stream at end'
+    and 'process_data did not answer XFRM_STREAM_END'"""
+    from ..errflow import ret_sources
+    n = 0
+    for f in prog.functions():
+        if f.decl or f.unit.src != "lib/xfrm/src/istream.c":
+            continue
+        f.build()
+        pd = [c for c in f.calls() if slot_call(c) == ("struct.xfrm_stream_t", "process_data")]
+        gb = [c for c in f.calls() if slot_call(c) == ("struct.sqfs_istream_t", "get_buffered_data")]
+        if not pd or not gb:
+            continue
+        n += 1
+        chk.analysed(f)
+        ok = None
+        for (v, b) in ret_sources(f):
+            w = strip_casts(v)
+            if not (w.is_const and w.is_int and w.sval < 0):
+                continue
+            on_end = on_eof = False
+            facts = list(f.guards_at(b))
+            for (cond, outcome, br) in facts:
+                sl = backward_slice(cond, phi_control=True, limit=300)
+                if any(x is pd[0] for x in sl) and any(x.is_inst and x.op == "icmp" and x.ops[1].is_const and x.ops[1].is_int and
+                                                        x.ops[1].sval > 0 and strip_casts(x.ops[0]) is pd[0] for x in sl):
+                    on_end = True
+                if any(x is gb[0] for x in sl):
+                    on_eof = True
+            if on_end and on_eof:
+                ok = b
+        inst = "%s:eof" % f.name
+        if ok is not None:
+            chk.ok("K1-truncated", inst, ok.term, "an error is returned when the input ends and the codec has not reported the end of its member")
+        else:
+            chk.violation("K1-truncated", inst, pd[0], "when the compressed input ends, the stream reports a regular end of file without "
+                          "asking whether the codec reached the end of its member: a truncated archive is accepted as a shorter one")
+    return n
+
+
 def error_now_rule(chk, prog):
     """a codec error is reported by the very call that observed it: in the decompressing stream (and the compressing one)
     the edge on which process_data answered XFRM_STREAM_ERROR cannot reach 'return 0' -- data decoded before the error must
@@ -578,6 +619,8 @@ def run(chk):
     trailer_rule(chk, load_program("sqfs2tar"))
     member_rule(chk, prog)
     pending_invariant_rule(chk, load_program("sqfs2tar"))
+    truncated_rule(chk, prog)
+    chk.floor("K1-truncated", 1)
     finish_reachable_rule(chk, load_program("sqfs2tar"))
     chk.floor("K1-finish", 4)
     error_now_rule(chk, load_program("tar2sqfs"))
